@@ -22,7 +22,7 @@ import time
 
 VERIF = os.path.dirname(os.path.dirname(os.path.abspath(__file__)))
 REPO = "/repo"
-ALL = ["C03", "C08", "C09", "C10", "C14", "C18"]
+ALL = (os.environ.get("AUDIT_CHECKS") or "C03,C08,C09,C10,C14,C18").split(",")  # AUDIT_CHECKS restricts a matrix audit
 
 
 def run_check(check, scratch, seed=None):
